@@ -117,6 +117,30 @@ func restoreResetsBeforeSuccess(c *Ctx, r *Report, rule string) {
 		if !reads {
 			continue
 		}
+		// a helper of the reader (called by another reader method of the index with the same stream) is part of it
+		helper := false
+		for _, g := range x.funcs {
+			if g == f || g.Signature.Recv() == nil || namedOf(g.Signature.Recv().Type()) != x.hnsw {
+				continue
+			}
+			gReads := false
+			for _, p := range g.Params {
+				if isIOType(p.Type(), "Reader") {
+					gReads = true
+				}
+			}
+			if !gReads {
+				continue
+			}
+			eachInstr(g, func(i ssa.Instruction) {
+				if cc := asCall(i); cc != nil && cc.StaticCallee() == f {
+					helper = true
+				}
+			})
+		}
+		if helper {
+			continue
+		}
 		fields := []*types.Var{x.fVertices, x.fLen, x.fBytes, x.fEntry}
 		k := 0
 		for _, rt := range returnsOf(f) {
@@ -348,14 +372,53 @@ func walCacheFollowsWrites(c *Ctx, r *Report, rule string) {
 		}
 		return false
 	}
+	// a single-entry writer: takes one raftpb.Entry, puts it into the batch, touches no cache. Its call sites are the write
+	// sites of its callers.
+	directSet := func(cl *ssa.Call) bool {
+		id := callID(&cl.Call)
+		return id.Name == "Set" && id.Recv == "WriteBatch" && w.keyKinds(cl.Call.Args[1])[entryCtor]
+	}
+	entryWriter := map[*ssa.Function]bool{}
 	for _, f := range w.funcs {
 		if f.Parent() != nil {
+			continue
+		}
+		takesEntry, sets, cacheOps := false, false, false
+		for _, p := range f.Params {
+			if typeName(p.Type()) == "Entry" {
+				takesEntry = true
+			}
+		}
+		eachInstr(f, func(i ssa.Instruction) {
+			if cl, ok := i.(*ssa.Call); ok {
+				if directSet(cl) {
+					sets = true
+				}
+				if id := callID(&cl.Call); id.Recv == "Map" && id.Pkg == "sync" {
+					cacheOps = true
+				}
+			}
+		})
+		called := false
+		for _, g := range w.funcs {
+			eachInstr(g, func(i ssa.Instruction) {
+				if cc := asCall(i); cc != nil && cc.StaticCallee() == f && g != f {
+					called = true
+				}
+			})
+		}
+		if takesEntry && sets && !cacheOps && called {
+			entryWriter[f] = true
+		}
+	}
+	for _, f := range w.funcs {
+		if f.Parent() != nil || entryWriter[f] {
 			continue
 		}
 		var sets []*ssa.Call
 		eachInstr(f, func(i ssa.Instruction) {
 			if cl, ok := i.(*ssa.Call); ok {
-				if id := callID(&cl.Call); id.Name == "Set" && id.Recv == "WriteBatch" && w.keyKinds(cl.Call.Args[1])[entryCtor] {
+				if directSet(cl) || entryWriter[cl.Call.StaticCallee()] {
 					sets = append(sets, cl)
 				}
 			}
@@ -1387,26 +1450,93 @@ func hardStateAlwaysWritten(c *Ctx, r *Report, rule string) {
 
 // walCacheLookupOrder: the snapshot cache answers FirstIndex before the memoized first index, unless every site that
 // stores the snapshot cache also refreshes the memoized first index.
-func walCacheOrdering(c *Ctx, r *Report, rule string) {
-	w := newWal(c)
-	keyOf := func(cc *ssa.CallCommon) *ssa.Global {
-		for _, a := range cc.Args {
-			if mi, ok := a.(*ssa.MakeInterface); ok {
-				if g := globalOf(mi.X); g != nil {
-					return g
-				}
-			}
+// cacheOp: one access of the WAL's sync.Map cache under a package-level key, directly or through a one-level helper that
+// takes the key as a parameter.
+type cacheOp struct {
+	key   *ssa.Global
+	ins   ssa.Instruction
+	value ssa.Value // stored value (Store only)
+}
+
+func walCacheOps(w *walInfo, f *ssa.Function, op string) []cacheOp {
+	var out []cacheOp
+	globalArg := func(v ssa.Value) *ssa.Global {
+		if mi, ok := v.(*ssa.MakeInterface); ok {
+			v = mi.X
 		}
-		return nil
+		return globalOf(v)
 	}
-	isMapCall := func(i ssa.Instruction, name string) (*ssa.CallCommon, bool) {
+	eachInstr(f, func(i ssa.Instruction) {
 		cc := asCall(i)
 		if cc == nil {
-			return nil, false
+			return
 		}
 		id := callID(cc)
-		return cc, id.Recv == "Map" && id.Pkg == "sync" && id.Name == name
-	}
+		if id.Recv == "Map" && id.Pkg == "sync" && id.Name == op {
+			for k, a := range cc.Args {
+				if g := globalArg(a); g != nil {
+					o := cacheOp{key: g, ins: i}
+					if op == "Store" && k+1 < len(cc.Args) {
+						o.value = cc.Args[k+1]
+					}
+					out = append(out, o)
+					return
+				}
+			}
+			return
+		}
+		// helper(key, …): the helper performs op on the cache with its parameter as key
+		h := cc.StaticCallee()
+		if h == nil || !modLocal(h) || len(h.Blocks) == 0 {
+			return
+		}
+		for ai, a := range cc.Args {
+			g := globalArg(a)
+			if g == nil || ai >= len(h.Params) {
+				continue
+			}
+			does := false
+			var val ssa.Value
+			eachInstr(h, func(j ssa.Instruction) {
+				c2 := asCall(j)
+				if c2 == nil {
+					return
+				}
+				id2 := callID(c2)
+				if !(id2.Recv == "Map" && id2.Pkg == "sync" && id2.Name == op) {
+					return
+				}
+				for k, b := range c2.Args {
+					if mi, ok := b.(*ssa.MakeInterface); ok {
+						b = mi.X
+					}
+					if b == ssa.Value(h.Params[ai]) {
+						does = true
+						if op == "Store" && k+1 < len(c2.Args) {
+							// map the stored value back to the caller's argument when it is a parameter
+							sv := c2.Args[k+1]
+							if mi, ok := sv.(*ssa.MakeInterface); ok {
+								sv = mi.X
+							}
+							for pi, p := range h.Params {
+								if sv == ssa.Value(p) && pi < len(cc.Args) {
+									val = cc.Args[pi]
+								}
+							}
+						}
+					}
+				}
+			})
+			if does {
+				out = append(out, cacheOp{key: g, ins: i, value: val})
+			}
+		}
+	})
+	return out
+}
+
+func walCacheOrdering(c *Ctx, r *Report, rule string) {
+	w := newWal(c)
 	fi := c.Method("storage/wal", "badgerWAL", "FirstIndex")
 	li := c.Method("storage/wal", "badgerWAL", "LastIndex")
 	if fi == nil || li == nil {
@@ -1414,37 +1544,28 @@ func walCacheOrdering(c *Ctx, r *Report, rule string) {
 		return
 	}
 	// cache keys by role, not by name: the snapshot key is the one a raftpb.Snapshot is stored under; the memo keys are
-	// the ones FirstIndex / LastIndex store under
+	// the ones FirstIndex / LastIndex read
 	snapKeys, firstKeys, lastKeys := map[*ssa.Global]bool{}, map[*ssa.Global]bool{}, map[*ssa.Global]bool{}
 	for _, f := range w.funcs {
-		eachInstr(f, func(i ssa.Instruction) {
-			cc, ok := isMapCall(i, "Store")
-			if !ok {
-				return
+		for _, o := range walCacheOps(w, f, "Store") {
+			v := o.value
+			if mi, isMI := v.(*ssa.MakeInterface); isMI {
+				v = mi.X
 			}
-			k := keyOf(cc)
-			if k == nil {
-				return
+			if v != nil && typeName(v.Type()) == "Snapshot" {
+				snapKeys[o.key] = true
 			}
-			for _, a := range cc.Args {
-				if mi, isMI := a.(*ssa.MakeInterface); isMI && typeName(mi.X.Type()) == "Snapshot" {
-					snapKeys[k] = true
-				}
-			}
-		})
+		}
 	}
-	for _, f := range []*ssa.Function{fi, li} {
-		eachInstr(f, func(i ssa.Instruction) {
-			if cc, ok := isMapCall(i, "Load"); ok {
-				if k := keyOf(cc); k != nil && !snapKeys[k] {
-					if f == fi {
-						firstKeys[k] = true
-					} else {
-						lastKeys[k] = true
-					}
-				}
-			}
-		})
+	for _, o := range walCacheOps(w, fi, "Load") {
+		if !snapKeys[o.key] {
+			firstKeys[o.key] = true
+		}
+	}
+	for _, o := range walCacheOps(w, li, "Load") {
+		if !snapKeys[o.key] {
+			lastKeys[o.key] = true
+		}
 	}
 	if len(snapKeys) == 0 || len(firstKeys) == 0 || len(lastKeys) == 0 {
 		r.Unk(rule, fnName(fi), "cache-keys", c.Pos(fi.Pos()), fmt.Sprintf("cache keys not identified by role (snapshot %d, first-index memo %d, last-index memo %d)", len(snapKeys), len(firstKeys), len(lastKeys)))
@@ -1455,57 +1576,53 @@ func walCacheOrdering(c *Ctx, r *Report, rule string) {
 	for _, f := range w.funcs {
 		var snapStore ssa.Instruction
 		refreshed := false
-		eachInstr(f, func(i ssa.Instruction) {
-			if cc, ok := isMapCall(i, "Store"); ok {
-				if k := keyOf(cc); k != nil {
-					if snapKeys[k] {
-						snapStore = i
-					}
-					if firstKeys[k] {
-						refreshed = true
-					}
-				}
+		for _, o := range walCacheOps(w, f, "Store") {
+			if snapKeys[o.key] {
+				snapStore = o.ins
 			}
-			if cc, ok := isMapCall(i, "Delete"); ok {
-				if k := keyOf(cc); k != nil && firstKeys[k] {
-					refreshed = true
-				}
+			if firstKeys[o.key] {
+				refreshed = true
 			}
-		})
+		}
+		for _, o := range walCacheOps(w, f, "Delete") {
+			if firstKeys[o.key] {
+				refreshed = true
+			}
+		}
 		if snapStore != nil && !refreshed {
 			allRefresh = false
 		}
 	}
 	{
 		var snapLoad, firstLoad ssa.Instruction
-		eachInstr(fi, func(i ssa.Instruction) {
-			if cc, ok := isMapCall(i, "Load"); ok {
-				k := keyOf(cc)
-				if k != nil && snapKeys[k] && snapLoad == nil {
-					snapLoad = i
-				}
-				if k != nil && firstKeys[k] && firstLoad == nil {
-					firstLoad = i
-				}
+		for _, o := range walCacheOps(w, fi, "Load") {
+			if snapKeys[o.key] && snapLoad == nil {
+				snapLoad = o.ins
 			}
-		})
+			if firstKeys[o.key] && firstLoad == nil {
+				firstLoad = o.ins
+			}
+		}
 		okOrder := snapLoad != nil && (firstLoad == nil || instrDominates(snapLoad, firstLoad))
 		r.Check(okOrder || allRefresh, rule, fnName(fi), "snapshot-cache-first", c.Pos(fi.Pos()), "FirstIndex consults the cached snapshot before the memoized first index (installing a snapshot does not refresh the memo: a stale memo would answer 1 where the reference says snapshot index + 1)")
 	}
 	// the old last index that decides truncation is read before the cache is overwritten
 	for _, f := range w.funcs {
+		if f == li {
+			continue
+		}
 		var lastCall, store ssa.Instruction
 		eachInstr(f, func(i ssa.Instruction) {
 			if cl, ok := i.(*ssa.Call); ok && cl.Call.StaticCallee() == li {
 				lastCall = i
 			}
-			if cc, ok := isMapCall(i, "Store"); ok && store == nil {
-				if k := keyOf(cc); k != nil && lastKeys[k] {
-					store = i
-				}
-			}
 		})
-		if lastCall == nil || store == nil || f == li {
+		for _, o := range walCacheOps(w, f, "Store") {
+			if lastKeys[o.key] && store == nil {
+				store = o.ins
+			}
+		}
+		if lastCall == nil || store == nil {
 			continue
 		}
 		_, after := reachesAvoiding(f, store, func(z ssa.Instruction) bool { return z == lastCall }, nil)
